@@ -31,6 +31,7 @@ type Solver struct {
 	Bin       string
 	Args      []string
 	TimeoutMS int
+	Retries   int
 	cmd       *exec.Cmd
 	in        io.WriteCloser
 	out       *bufio.Reader
@@ -225,6 +226,25 @@ func (s *Solver) Check(extra []*T, want []*T) (Result, map[string]*big.Int, erro
 	if bad {
 		s.Errors++
 		res = Unknown
+	}
+	if res == Unknown && !bad && !strings.Contains(s.Bin, "cvc5") && s.TimeoutMS > 0 {
+		// one retry with six times the time limit before the query counts as undecided
+		s.Retries++
+		s.send(fmt.Sprintf("(set-option :timeout %d)\n(check-sat)\n", 6*s.TimeoutMS))
+		ls, err := s.sync()
+		s.send(fmt.Sprintf("(set-option :timeout %d)\n", s.TimeoutMS))
+		if err == nil {
+			for _, l := range ls {
+				switch {
+				case strings.HasPrefix(l, "(error"):
+					s.LastError = l
+				case l == "sat":
+					res = Sat
+				case l == "unsat":
+					res = Unsat
+				}
+			}
+		}
 	}
 	var model map[string]*big.Int
 	if res == Sat && len(names) > 0 {
